@@ -134,7 +134,7 @@ Definition fire_one (s : st) (cb : Z * bar) : st :=
     let hs := map (fun h => if existsb (fun k => Z.eqb (fst k) c && String.eqb (snd k) (h_src h)) (keymap s) then del_rec h c else h) (handlers s) in
     {| dcolls := (dcolls s ++ [c])%list; dparts := dparts s; handlers := hs; clocks := clocks s; heap := heap s;
        cbars := zremove (cbars s) c; pbars := pbars s; pbar_handlers := pbar_handlers s; keymap := keymap s; out := out s;
-       events := (events s ++ [EvDropColl c (b_ts b)])%list; alive := alive s |}
+       events := (events s ++ [EvDropColl c (b_ts b)])%list; alive := alive s; mg := mg s; wsh := wsh s |}
   else s.
 Lemma fire_cbars_fold s : fire_cbars s = fold_left fire_one (cbars s) s.
 Proof. reflexivity. Qed.
@@ -148,7 +148,7 @@ Proof.
   intros [N I] Hin. unfold fire_one. destruct (negb (b_done b) && Nat.leb (b_dest b) (b_got b)); [|split; [split; assumption|auto]].
   set (s' := {| dcolls := (dcolls s ++ [c])%list; dparts := dparts s; handlers := _; clocks := clocks s; heap := heap s; cbars := zremove (cbars s) c;
                 pbars := pbars s; pbar_handlers := pbar_handlers s; keymap := keymap s; out := out s; events := (events s ++ [EvDropColl c (b_ts b)])%list;
-                alive := alive s |}).
+                alive := alive s; mg := mg s; wsh := wsh s |}).
   assert (K : keys s' = filter (fun x => negb (Z.eqb c x)) (keys s)) by (unfold keys; cbn [cbars s']; apply zremove_keys).
   split.
   - split; [rewrite K; apply NoDup_filter; exact N|]. intros c0. destruct (I c0) as [A [B C]].
@@ -191,17 +191,27 @@ Lemma emit_T3 s ch label b e msgs need : T3 s (emit s ch label b e msgs need).
 Proof. unfold emit. destruct label as [[lc ln] lsp]. repeat dm; repeat split. Qed.
 
 Lemma add_shard_T3 s c ref sh : T3 s (add_shard s c ref sh).
-Proof. unfold add_shard. destruct (hlookup s (sh_spch sh)); repeat split. Qed.
+Proof.
+  unfold add_shard. destruct (hlookup s _); [repeat split|]. destruct (Manager.has_handler _ _); [repeat split|].
+  destruct (alookup _ _); repeat split.
+Qed.
+Lemma fold_T3 {A} (f : st -> A -> st) : (forall s x, T3 s (f s x)) -> forall l s, T3 s (fold_left f l s).
+Proof. intros H l. induction l as [|x l IH]; intros s; cbn [fold_left]; [apply T3_refl|]. eapply T3_trans; [apply H|apply IH]. Qed.
+Lemma settle_T3 s : T3 s (settle s).
+Proof.
+  unfold settle. eapply T3_trans; [|unfold materialise; apply fold_T3]; [repeat split|].
+  intros s0 k. destruct (alookup _ _); [|apply T3_refl]. destruct (Manager.find_handler _ _); [|apply T3_refl]. repeat split.
+Qed.
 Lemma fold_add_shard_T3 c ref : forall shards s, T3 s (fold_left (fun s sh => add_shard s c ref sh) shards s).
 Proof. induction shards as [|sh r IH]; intros s; cbn [fold_left]; [apply T3_refl|]. eapply T3_trans; [apply add_shard_T3|apply IH]. Qed.
 
 Lemma step_DI retries s l : DI s -> DI (step retries s l).
 Proof.
   intros D. unfold step. apply (DI_T3 _ _ (fire_pbars_T3 _)). apply fire_cbars_DI.
-  destruct l as [c|c pid pname th|c cname spch p answers|cs|c spchs].
+  destruct l as [c|c pid pname th|c cname spch p answers|cs|c spchs|ns nt].
   - destruct (zmem (ci_id c) (dcolls s)) eqn:Hd; [exact D|]. destruct (zlookup (cbars s) (ci_id c)) eqn:Hz; [exact D|].
     destruct (pairing c) as [shards|]; [|exact D].
-    eapply DI_T3; [apply fold_add_shard_T3|]. destruct D as [N I].
+    eapply DI_T3; [eapply T3_trans; [apply fold_add_shard_T3|apply settle_T3]|]. destruct D as [N I].
     assert (Hnin : ~ In (ci_id c) (keys s)).
     { intros H. apply (zlookup_in (cbars s)) in H. destruct H as [v H]. congruence. }
     split.
@@ -226,6 +236,8 @@ Proof.
     + unfold keys. cbn [cbars]. rewrite zremove_keys. apply NoDup_filter. exact N.
     + intros c0. destruct (I c0) as [A [B C]]. unfold keys, cnt. cbn [cbars events dcolls]. rewrite zremove_keys.
       split; [|split; assumption]. intros H. apply filter_In in H. apply A, H.
+  - destruct (handlers s); [|exact D]. destruct (wsh s); [|exact D]. destruct (Manager.g_hs (mg s)); [|exact D].
+    eapply DI_T3; [|exact D]. repeat split.
 Qed.
 
 Lemma DI_init : DI init.
@@ -256,8 +268,9 @@ Proof.
   intros H. unfold step.
   match goal with |- zmem c (dcolls (fire_pbars (fire_cbars ?x))) = true => destruct (fire_pbars_T3 (fire_cbars x)) as [_ [_ ->]] end.
   apply fire_cbars_dcolls.
-  destruct l as [c0|c0 pid pname th|c0 cname spch p answers|cs|c0 spchs].
+  destruct l as [c0|c0 pid pname th|c0 cname spch p answers|cs|c0 spchs|ns nt].
   - destruct (zmem (ci_id c0) (dcolls s)); [exact H|]. destruct (zlookup _ _); [exact H|]. destruct (pairing c0); [|exact H].
+    match goal with |- context [settle ?x] => destruct (settle_T3 x) as [_ [_ ->]] end.
     match goal with |- context [fold_left ?f ?l ?s1] => destruct (fold_add_shard_T3 c0 (fresh_ref (heap s)) l s1) as [_ [_ ->]] end. exact H.
   - match goal with |- zmem c (dcolls ?s') = true => assert (T : T3 s s') end.
     { repeat dm; try apply T3_refl; unfold T3, keys; cbn [cbars events dcolls upd_state]; try rewrite dcev_app; cbn; try rewrite app_nil_r; repeat split. }
@@ -276,6 +289,7 @@ Proof.
       * eapply T3_trans; [|apply emit_T3]. repeat split.
   - cbn [dcolls]. rewrite zmem_app, H. reflexivity.
   - exact H.
+  - destruct (handlers s); [|exact H]. destruct (wsh s); [|exact H]. destruct (Manager.g_hs (mg s)); exact H.
 Qed.
 
 (* nothing is emitted for a collection that is marked dropped *)
